@@ -523,6 +523,52 @@ pub fn search_stream(args: &[String]) {
                 }
             }
         }
+        "deepbudget" => {
+            // roots whose FIRST generated move is not legal (the side to move is in check, or its lowest piece is pinned), searched
+            // DEEP under node budgets spread from a few dozen to tens of thousands: whatever the iterations and re-searches were doing
+            // when the budget ran out, the one bestmove must be a legal move.  Engine output only (`tag=deep`): the model is not run
+            let mut roots: Vec<String> = vec![
+                "rnb1kbnr/pppp1ppp/8/4p3/4PP1q/8/PPPP2PP/RNBQKBNR w KQkq - 1 3".to_string(),
+                "4k3/8/8/8/8/8/8/rR3K2 w - - 0 1".to_string(),
+                "6k1/1R3p2/6p1/2Bp3p/3P3q/P7/1P2rQ1K/5R2 w - - 5 45".to_string(),
+                "r1bq1rk1/pp2bppp/2n1pn2/3p4/2PP4/2N1PN2/PP2BPPP/R1BQ1RK1 w - - 0 9".to_string(),
+            ];
+            let mut tries = 0u32;
+            while roots.len() < count.max(8) && tries < 200_000 {
+                tries += 1;
+                let fen = super::walk::SEEDS[rng.below(super::walk::SEEDS.len() as u64) as usize];
+                let mut b = Board::from_fen(fen);
+                for _ in 0..(6 + rng.below(50)) {
+                    let legal = b.get_legal_moves();
+                    if legal.is_empty() {
+                        break;
+                    }
+                    let checks: Vec<&Ply> = legal.iter().filter(|m| { let mut c = b.clone(); c.make_move(**m); c.is_in_check(c.current_turn) }).collect();
+                    let m = if !checks.is_empty() && rng.below(2) == 0 { *checks[rng.below(checks.len() as u64) as usize] } else { legal[rng.below(legal.len() as u64) as usize] };
+                    b.make_move(m);
+                }
+                let legal = b.get_legal_moves();
+                if legal.is_empty() {
+                    continue;
+                }
+                // keep it if the first generated (pseudo-legal) move is not a legal one
+                let first = b.get_all_moves().first().copied();
+                if first.is_some_and(|f| legal.iter().any(|m| m.to_notation() == f.to_notation())) {
+                    continue;
+                }
+                roots.push(render_fen(&b));
+            }
+            for fen in roots.iter() {
+                if !mine(&mut idx) {
+                    continue;
+                }
+                let mut budget = 40u64;
+                while budget < 40_000 {
+                    run_case(&Case { fen: fen.clone(), moves: vec![], depth: maxdepth, nodes: Some(budget), stop: 0, cache: "fresh", tag: "tag=deep".to_string(), tc: NO_TC, vdiv: 0 });
+                    budget = budget * 4 / 3 + 7 + rng.below(9);
+                }
+            }
+        }
         "deepseed" => {
             // the seed positions (openings, middlegames, tactical set-ups) searched to a depth the Lean model is too slow for: only the
             // property-level checks on the engine's own output apply (info order and syntax, every PV legal by the rules, one legal
